@@ -4080,6 +4080,10 @@ class UDFFileEntry:
         if self.icb_tag.file_type != 4:
             raise pycdlibexception.PyCdlibInvalidInput('Can only add a UDF File Identifier to a directory')
 
+        for fi_desc in self.fi_descs:
+            if not fi_desc.is_parent() and not new_fi_desc.is_parent() and fi_desc.fi == new_fi_desc.fi and fi_desc.encoding == new_fi_desc.encoding:
+                raise pycdlibexception.PyCdlibInvalidInput('Failed adding duplicate name to parent')
+
         self.fi_descs.append(new_fi_desc)
 
         num_bytes_to_add = UDFFileIdentifierDescriptor.length(len(new_fi_desc.fi))
